@@ -5,7 +5,7 @@ ID = 'C15'
 RULE = ('one case = the real selector actor (start_node_selector + DCAwareSelector) for one local node, a sequence of membership updates (layouts up to 4 DCs x 4 nodes, '
         'the local node at every position, DCs appearing/disappearing/shrinking) and selections at all eight consistency levels; the data centres picked by the random '
         'choose_multiple are recorded by hook H3 and handed to the model; results compared with the Lean model after every call; python oracle = the property itself '
-        '(distinct, not local, within the CURRENT layout, enough, NotEnoughNodes only when too few others exist); quick: all levels x all prior-selection pairs on ~60 layouts + random; '
+        '(distinct, not local, within the CURRENT layout, enough, NotEnoughNodes only when too few others exist); plus REAL DatacakeNodes (builder + chitchat over loopback + membership watcher + selector; listen address equal to / different from the advertised one) asking their own selector for every level; quick: all levels x all prior-selection pairs on ~60 layouts + random; '
         'thorough: all sequences of <=3 prior selections; non-trivial = at least two selections with different results or an update that removes a node; distinct by hash')
 ASSUMPTIONS = ['the per-level result cache (2 s) does not expire within a case unless the case says so (sel-expire sleeps 2.1 s)',
                'addresses are unique across the layout; the local node is a member of its own data centre (as the membership layer guarantees)']
@@ -102,6 +102,10 @@ def generate(rng, tier):
         for _ in range(3):
             c = gen_case(rng.fork(), idx); idx += 1
             c.insert(-1, 'sel-expire'); c.insert(-1, 'sel-get two'); cases.append(c)
+    # the wiring around the selector: REAL DatacakeNodes (builder, chitchat membership over loopback, membership watcher,
+    # selector actor), with listen address = public address and with 0.0.0.0:<port> advertised as 127.0.0.1:<port>
+    for (n, mode) in ([(3, 1), (2, 0)] if tier == 'quick' else [(2, 0), (2, 1), (3, 0), (3, 1), (4, 1), (5, 1)]):
+        cases.append(['case %d node' % idx, 'realnodes %d %d' % (n, mode), 'end']); idx += 1
     return cases
 
 
@@ -152,6 +156,10 @@ def oracle(case, impl):
                 if len(others) >= req:
                     bad.append('%s: NotEnoughNodes(live=%s, required=%s) although %d other live nodes exist' % (line, o[1], o[2], len(others)))
     return bad
+
+
+def oracle(case, impl):
+    return ['%s: %s' % (l, o) for l, o in zip(case, impl) if l.startswith('realnodes') and o != 'real ok']
 
 
 def explain(v):
